@@ -319,7 +319,9 @@ struct Scenario {
       bool prefix = true; for (size_t i = 0; i < seen.size(); i++) if (seen[i] != keys[i]) prefix = false;
       if (!prefix) { fail(r, "C12.candidate-order", ctx); continue; }
       r.counters["c12.orders_checked"]++;
-      if (!srch) continue;
+      // address lookups walk the same list (host_callback / next_lookup); with one family there is one query per candidate and the stop rule applies unchanged.
+      // (their final status follows getaddrinfo's own rules and is not judged here)
+      if (!srch && q.family == AF_UNSPEC) continue;
       // stop rule and final status, for plain searches where each candidate got exactly one decisive reply
       bool simple = !conn_killed && S.opt.tries == 1 && w.servers.size() == 1 && q.timeouts == 0 && q.status != ARES_ETIMEOUT; for (auto &x : by_name) if (x.second.size() != 1) simple = false;   // (a timeout is the application advancing the clock past a deadline before reading the reply)
       if (!simple) continue;
@@ -336,6 +338,7 @@ struct Scenario {
       if (undecided) { r.counters["c12.stop_rule_undecided"]++; continue; }
       if (expect_status == -2) expect_status = any_nodata ? ARES_ENODATA : last;
       if (seen.size() != expect_n) { fail(r, "C12.stop-rule", ctx + "; expected the search to ask exactly " + std::to_string(expect_n) + " candidates"); continue; }
+      if (!srch) { r.counters["c12.stop_rules_checked_addr"]++; continue; }
       if (q.status != expect_status) { fail(r, "C12.final-status", ctx + "; final status " + ares_strerror(q.status) + ", expected " + ares_strerror(expect_status)); continue; }
       r.counters["c12.stop_rules_checked"]++;
     }
